@@ -102,4 +102,15 @@ CLAIMED['C20'] = dict(category='proof',
         'enumerated. Known finding: the last group is not limited by the pressure-drop limit. Native grouping examples are '
         'a bounded supplement.',
    technique='contract-based deductive verification (loops cut from the real source; body/suffix executed on proxies with free decision variables)')
+CLAIMED['C16'] = dict(category='proof',
+   text='Frame contract readonly(dassh_input.data) on Reactor.__init__, _run_dassh, run_dassh, Orificing._get_power and on '
+        'every dassh function they (transitively) hand an input-derived reference to: a taint-based frame analyser over '
+        'the AST of the real sources proves, function by function, that no statement stores through a reference derived '
+        'from the parsed input, including references that escaped into object attributes (self.<path>) and are written '
+        'by other methods later. Every finding is replayed by run-time frame contracts on the real constructors (deep '
+        'comparison before/after construction and sweep, second construction bitwise identical) on generated problems.',
+   note='Analyser assumptions (listed in the evidence): over-approximate call resolution, unresolved library calls assumed '
+        'non-mutating, complete-copy detection uses a run-time type probe on sample inputs. The run-time contracts and the '
+        'serial=parallel comparison are BOUNDED. Bitwise identity across processes / file-system layout not decided.',
+   technique='contract-based verification of frame conditions (static effect analysis of the real sources) + bounded run-time frame contracts')
 NOT_APPLICABLE = {f'C{i:02d}': 'check not built yet in this round (see DESIGN.md section 12 build order)' for i in range(1, 21)}
